@@ -176,11 +176,15 @@ def extra(ctx, tier, seed):
         for t in itertools.product(digs, repeat=3):
             code = pre + "".join(t)
             n3 += 1
-            try:
-                check_color(code)
-            except Violation as e:
-                ctx.record(e.bucket + "-3digit", dict(kind="color", code=code), e.msg)
-                ctx.buckets[e.bucket + "-3digit"]["noshrink"] = True
+            # the code itself, its doubled six-digit form (which must denote the same colour) and the six-digit code
+            # with the same numeric value (which must not), all in this one process and in this order
+            body = "".join(t)
+            for c2 in (code, pre + body[0] * 2 + body[1] * 2 + body[2] * 2, pre + "000" + body, code):
+                try:
+                    check_color(c2)
+                except Violation as e:
+                    ctx.record(e.bucket + "-3digit", dict(kind="color", code=c2), "%s (evaluated right after %r)" % (e.msg, code))
+                    ctx.buckets[e.bucket + "-3digit"]["noshrink"] = True
     # 6-digit lower-case codes
     stride = 1 if tier == "thorough" else 257
     total = 16 ** 6
